@@ -193,6 +193,12 @@ def alignment_by_paths(ctx, fi, dc, why):
             continue
         rep.require(mv.kind == 'mat', f'{why}; on path [{where}] the matrix written is not the plain result of jaccarddist_matrix / jaccarddist_pairwise')
         mode, pq, pr = mv.ent
+        # a sequence whose positions are those of its own side but whose values partly come from elsewhere: positions (labels) are judged on
+        # the positions, the values by the deviation recorded where they were taken (G3 below)
+        mixed = [x for x in (pq, pr) if x is not None and x[0] == 'mixed']
+        pq, pr = (x[1] if x is not None and x[0] == 'mixed' else x for x in (pq, pr))
+        for x in mixed:
+            bad['files'].append(f'signatures at the positions of {x[1]} partly hold the values of {x[2]} on path [{where}]')
         rep.require(pq is not None and pr is not None, f'{why}; on path [{where}] the order of a matrix operand is unknown (its provenance was lost)')
         for role, lv, own, other in (('row', rv, pq, pr), ('column', cv, pr, pq)):
             if lv.kind == 'files':
@@ -224,6 +230,12 @@ def alignment_by_paths(ctx, fi, dc, why):
             expected='qs | q, ql, qdir  /  rs | use_db | r, rl, rdir', found=bad['side'][:2] or 'ok', stmt='side sources (paths)')
     rep.add('G2', fi.site(dc), 'square mode writes the all-pairs matrix of the queries, otherwise queries x references', not bad['mode'] and not bad['out'], expected='pairwise under square, matrix otherwise, written to the output option',
             found=(bad['mode'] + bad['out'])[:2] or 'ok', stmt='mode (paths)')
+    seen = set()
+    for (node, text, st_) in it.deviations:
+        if id(node) not in seen:
+            seen.add(id(node))
+            rep.add('G3', fi.site(node), 'every signature that is not pre-computed is calc_file_signatures of the file at its own position on its own side', False,
+                    expected='computed from this side\'s file at that position', found=text, stmt=f'value source @{u(node)[:40]}')
     rep.add('G3', fi.site(dc), 'signatures computed from files are computed from the files of their own side, in file order', not bad['files'], expected='query files for the rows, reference files for the columns',
             found=bad['files'][:2] or 'ok', stmt='computed side (paths)')
     fn = fi.node
@@ -588,6 +600,14 @@ def _rec(qrec=_QREC, rrec=_RREC, cls=_RECCLS, extra=()):
     return [(_D, _RSEL, rrec), (_D, _IMP, "from typing import Optional, TextIO, NamedTuple\n"), (_D, _CMDDEC, cls + _CMDDEC)] + list(extra)
 
 
+_QHELP = "\t\tquery_sigs = calc_side_signatures(kspec, query_ids, query_files, 'Calculating query genome signatures', prog, cores)\n"
+_RHELP = "ref_sigs = calc_side_signatures(kspec, ref_ids, ref_files, 'Calculating reference genome signatures', prog, coresCACHE)\n"
+_CACHEH = ("def calc_side_signatures(kspec, ids, files, desc, progress=None, cores=None, known=None):\n\tif known is None:\n\t\tknown = dict()\n\n"
+           "\ttodo = [file for id_, file in zip_strict(ids, files) if id_ not in known]\n\tpconf = progress_config(progress, desc=desc) if len(todo) > 1 else None\n"
+           "\tnew_sigs = iter(calc_file_signatures(kspec, todo, progress=pconf, max_workers=cores) if todo else ())\n\n"
+           "\tsigs = [known[id_] if id_ in known else next(new_sigs) for id_ in ids]\n\treturn SignatureList(sigs, kspec)\n\n\n")
+_PLAINH = ("def calc_side_signatures(kspec, ids, files, desc, progress=None, cores=None):\n\tpconf = progress_config(progress, desc=desc) if len(files) > 1 else None\n"
+           "\treturn calc_file_signatures(kspec, files, progress=pconf, max_workers=cores)\n\n\n")
 VARIANTS = [
     V('file options resolve symlinks (seeded C16c)', 'B', 'src/gambit/cli/common.py', "\tkw.setdefault('path_type', Path)\n\treturn click.Path(file_okay=True, dir_okay=False, **kw)\n",
       "\tkw.setdefault('path_type', Path)\n\tkw.setdefault('resolve_path', True)\n\treturn click.Path(file_okay=True, dir_okay=False, **kw)\n", 'G5'),
@@ -652,4 +672,14 @@ VARIANTS = [
     V('records: the reference side is read from the query list options', 'B', _D, _QSEL, _QREC, 'G', also=_rec(rrec=_RREC.replace("SideInput.from_files(r, rl, rdir)", "SideInput.from_files(r, ql, qdir)"))),
     V('records: the reference record is unpacked from the query record', 'B', _D, _QSEL, _QREC, 'G1', also=_rec(rrec=_RREC.replace("ref_ids, ref_files, ref_sigs = ref\n", "ref_ids, ref_files, ref_sigs = query\n"))),
     V('records: square labels the columns with the database ids of an earlier branch', 'B', _D, _QSEL, _QREC, 'G', also=_rec(rrec=_RREC.replace("ref = SideInput(query.ids, None, None)", "ref = SideInput(query.ids[::-1], None, None)"))),
+    # ---- fourth round: per-genome values built position by position (filtered comprehension + iterator + mapping lookup)
+    V('E: both calculation stanzas in one helper that skips genomes found in an optional cache; no cache is ever passed', 'E', _D, _QCALC, _QHELP,
+      also=[(_D, _CALC.replace('TABS', '\t\t\t'), _RHELP.replace("CACHE", "")), (_D, _CMDDEC, _CACHEH + _CMDDEC), (_D, "from gambit.sigs import load_signatures\n", "from gambit.sigs import load_signatures, SignatureList\nfrom gambit.util.misc import zip_strict\n")]),
+    V('the helper is given the query signatures as a cache keyed by file ID: a reference with the label of a query is never read (seeded C16d)', 'B', _D, _QCALC, _QHELP, 'G3',
+      also=[(_D, _CALC.replace('TABS', '\t\t\t'), _RHELP.replace("CACHE", ", known=dict(zip(query_ids, query_sigs))")), (_D, _CMDDEC, _CACHEH + _CMDDEC),
+            (_D, "from gambit.sigs import load_signatures\n", "from gambit.sigs import load_signatures, SignatureList\nfrom gambit.util.misc import zip_strict\n")]),
+    V('E: the same helper without any cache logic', 'E', _D, _QCALC, _QHELP,
+      also=[(_D, _CALC.replace('TABS', '\t\t\t'), _RHELP.replace("CACHE", "")), (_D, _CMDDEC, _PLAINH + _CMDDEC)]),
+    V('plain helper, but the reference side is given the query files', 'B', _D, _QCALC, _QHELP, 'G3',
+      also=[(_D, _CALC.replace('TABS', '\t\t\t'), _RHELP.replace("CACHE", "").replace("ref_ids, ref_files", "ref_ids, query_files")), (_D, _CMDDEC, _PLAINH + _CMDDEC)]),
 ]
